@@ -48,7 +48,7 @@ Definition dispatch_obj (tbl : list cmd_entry) (k : objkind) (names : list strin
       if negb ex && negb (String.eqb subcmd "help") then ErrObjectNotFound
       else match lookup tbl (prefix_of k ++ subcmd) with
            | None => ErrSyntax
-           | Some e => check_nargs k e (Z.of_nat (length words)) ex
+           | Some e => check_nargs k e (Z.of_nat (List.length words)) ex
            end
   | _ => ErrMissingParams
   end.
@@ -61,7 +61,7 @@ Definition dispatch (tbl : list cmd_entry) (colvars biases : list string) (words
       else if String.eqb cmd "bias" then dispatch_obj tbl OBias biases words
       else match lookup tbl (prefix_of OModule ++ cmd) with
            | None => ErrSyntax
-           | Some e => check_nargs OModule e (Z.of_nat (length words)) true
+           | Some e => check_nargs OModule e (Z.of_nat (List.length words)) true
            end
   | _ => ErrNoCommand
   end.
